@@ -1,5 +1,5 @@
 /*VERIF
-{ "tu": "src/queue.c", "enforce": "_dispatch_lane_drain", "props": ["C02","C03","C04","C06","C01"], "plain": true, "timeout": 400,
+{ "tu": "src/queue.c", "enforce": "_dispatch_lane_drain", "props": ["C02","C03","C04","C06","C01","C18"], "plain": true, "timeout": 400,
   "bounded": {"unwind": 5, "what": "drains of <= 3 queued items (the drain loop is entered by a goto into its body: not a natural loop, so no loop contract can be attached)"},
   "assumes": ["scenario semantics: dq_state, the target queue and the item list change only through this drain's own call-outs (an item may suspend or retarget the queue); pinned by a rely clause / ghost state that the stubs update"],
   "stub_note": "_dispatch_queue_max_qos (asserts it is not applied to the WLH_ANON marker), item list access (get_head/pop_head), _dispatch_continuation_pop_inline (= an item starts running), width helpers (own contracts in C04), redirect/wake of readers: stubs recording order and checking the run conditions" }
